@@ -12,3 +12,5 @@ pub mod eng_reader;
 pub mod eng_transfer;
 pub mod eng_tamper;
 pub mod eng_format;
+pub mod eng_fault;
+pub mod alloc;
